@@ -16,6 +16,7 @@ RULE = ("Hypothesis-generated (msg, DST, len_in_bytes, hash) compared byte-for-b
 ASSUMPTIONS = ["hashlib primitives are correct (shared by model and library)",
                "fixed-output hashlib functions only (shake_* have no digest_size semantics here)"]
 ENGINE = "hypothesis"
+TECHNIQUE = ("property-based testing (Hypothesis) against an independent RFC 9380 model for every fixed-size hashlib function")
 HASHES = ["sha256", "sha512", "sha384", "sha3_256", "blake2b", "sha1", "sha224", "md5", "sha3_224",
           "sha3_384", "sha3_512", "blake2s"]
 REQUIRED_LABELS = {t: ["xmd:hash=sha512", "xmd:hash=sha3_256", "xmd:hash=blake2b", "xmd:ell=255",
